@@ -104,8 +104,8 @@ fam('env', depth=2, maxstack=3,
     alphabet=[('AMOUNT',), ('BALANCE',), ('SENDER',), ('SOURCE',), ('SELF_ADDRESS',), ('NOW',), ('LEVEL',), ('CHAIN_ID',), ('ADD',), ('COMPARE',), ('PAIR', 2), DROP(1)])
 
 fam('hash', depth=3, maxstack=3,
-    inits=[(S(BYT, b([])),), (S(BYT, b([0, 255, 16])),)],
-    alphabet=[('BLAKE2B',), ('SHA256',), ('SHA512',), ('SHA3',), DUP(1), ('SIZE',), ('PAIR', 2)])
+    inits=[(S(BYT, b([])),), (S(BYT, b([0, 255, 16])),), (S(BYT, b([7] * 135)),), (S(BYT, b([9] * 136)),), (S(BYT, b([200] * 55)),)],     # lengths next to the block / padding boundaries
+    alphabet=[('BLAKE2B',), ('SHA256',), ('SHA512',), ('SHA3',), ('KECCAK',), DUP(1), ('SIZE',), ('PAIR', 2)])
 
 KI = [i(1), i(2), i(3)]
 fam('coll', depth=4, maxstack=4,
